@@ -3,6 +3,7 @@ import LibInj.Xss.IsXSS
 import LibInj.Proofs.XssCase
 import LibInj.Proofs.NulClass
 import LibInj.Proofs.XssNul
+import LibInj.Proofs.XssIns
 set_option linter.unusedSimpArgs false
 /-! # C11 — XSS detection is insensitive to letter case and to NUL bytes inside names
 
@@ -25,11 +26,15 @@ Proved for every name (the classifiers are where names meet the black lists):
   (`black_tags_min_length`, re-checked on every build);
 * `name_scan_nul` — a NUL is an ordinary name byte for both name scans.
 
-**NUL clause at tokenizer level, first element name (`nul_in_first_element_name`):** after any `<`-free
-text, inserting a NUL strictly inside the element name never changes the element-content verdict — the
-verdict on `text <name rest` is "`name` is black, or the verdict of what follows", and what follows is read
-from a machine state that depends on `rest` alone (shift naturality, C13). For names further inside the
-input the clause is decided by the NUL metamorphic oracle over every generated input and every list entry. -/
+**NUL clause, full statement (`nul_in_name`):** for every input, every start context and every offset
+strictly inside a tag-name or attribute-name token of that input in that context, inserting a NUL byte at
+that offset does not change the context's verdict. The runs on `a ++ b` and `a ++ 0 :: b` are followed in lock
+step: a tokenizer step that ends before the insertion point is the same step on both inputs (`Proofs/H5Ins`,
+`next_loc`: all 20 state functions never look past what they consume, except for look-ahead the same step
+consumes); the step that emits the name token containing the insertion point emits it one byte longer and
+resumes one byte later — the classifiers ignore NULs; from there both machines read the same suffix (shift
+naturality, C13). Non-overlap of tokens (C17) turns "offset inside a name token" into that lock-step run.
+`nul_in_first_element_name` is the earlier special case (first element name after `<`-free text). -/
 namespace LibInj.Properties.C11
 open LibInj LibInj.Xss LibInj.H5
 
@@ -65,6 +70,41 @@ example : CaseEq [83, 99, 82, 105, 112, 116] [115, 67, 114, 73, 80, 84] ∧ isBl
 theorem nul_in_first_element_name (p n1 n2 rest : Bytes) (hp : (60 : UInt8) ∉ p) (h1 : n1 ≠ []) (hn : NameAt (n1 ++ n2) rest) :
     isXSSCtx (p ++ 60 :: ((n1 ++ 0 :: n2) ++ rest)) 0 = isXSSCtx (p ++ 60 :: ((n1 ++ n2) ++ rest)) 0 :=
   nul_first_tag p n1 n2 rest hp h1 hn
+
+/-- the NUL clause of C11 at full strength -/
+def nul_in_name_statement : Prop :=
+  ∀ (s : Bytes) (ctx : Nat) (ts : List Tok), tokens s ctx = .ok ts → ∀ t ∈ ts,
+    (t.ty = .tagNameOpen ∨ t.ty = .tagClose ∨ t.ty = .attrName) →
+    ∀ m, t.off < m → m < t.off + t.len → isXSSCtx (s.take m ++ 0 :: s.drop m) ctx = isXSSCtx s ctx
+
+/-- **C11, NUL clause: full statement.** -/
+theorem nul_in_name : nul_in_name_statement :=
+  fun s ctx ts hts t ht hname m hlo hhi => nul_in_name_token s ctx ts hts t ht hname m hlo hhi
+
+def tokEq : M (List Tok) → List Tok → Bool
+  | .ok a, b => a == b
+  | _, _ => false
+
+theorem tokEq_sound (r : M (List Tok)) (ts : List Tok) (h : tokEq r ts = true) : r = .ok ts := by
+  cases r with
+  | error e => cases h
+  | ok a => simp only [tokEq, beq_iff_eq] at h; rw [h]
+
+theorem isOkTrue_sound (r : M Bool) (h : isOkTrue r = true) : r = .ok true := by
+  cases r with
+  | error e => cases h
+  | ok v => cases v <;> first | rfl | cases h
+
+/-- non-vacuity: in `<a onclick=x>` (element content) the attribute name is the token at offset 3 of length 7;
+a NUL after `on` leaves the verdict unchanged — and the verdict is `true` -/
+example : isXSSCtx [60, 97, 32, 111, 110, 0, 99, 108, 105, 99, 107, 61, 120, 62] 0 = .ok true := by
+  have h := nul_in_name [60, 97, 32, 111, 110, 99, 108, 105, 99, 107, 61, 120, 62] 0
+    [⟨.tagNameOpen, 1, 1⟩, ⟨.attrName, 3, 7⟩, ⟨.attrValue, 11, 1⟩, ⟨.tagNameClose, 12, 1⟩] (tokEq_sound _ _ (by decide +kernel))
+    ⟨.attrName, 3, 7⟩ (by simp) (Or.inr (Or.inr rfl)) 5 (by decide) (by decide)
+  rw [show List.take 5 [60, 97, 32, 111, 110, 99, 108, 105, 99, 107, 61, 120, 62] ++ 0 :: List.drop 5 [60, 97, 32, 111, 110, 99, 108, 105, 99, 107, 61, 120, 62]
+      = ([60, 97, 32, 111, 110, 0, 99, 108, 105, 99, 107, 61, 120, 62] : Bytes) from rfl] at h
+  rw [h]
+  exact isOkTrue_sound _ (by decide +kernel)
 
 /-- **C11, letter case: full clause.** -/
 theorem xss_case_insensitive (s s' : Bytes) (h : CaseEq s s') (hno : NoCdata s) (hno' : NoCdata s') :
